@@ -13,7 +13,8 @@ def main(tier, seed):
     c.run_jobs(jobs)
     return c.finish(
         rule="workflows of the set / code / irq fragment whose written values, start values and client options are z3 integers; every condition, template and script evaluation is "
-             "intercepted with the variables the real Task::vars hands to the script engine, every Task::update_data call is recorded; 'a reader sees the last value written to the "
+             "intercepted with the variables the real Task::vars hands to the script engine; writes are recorded where a value enters the engine (parameters a set act executes with, "
+             "arguments of $set, options of an accepted client action), not where the engine stores it; 'a reader sees the last value written to the "
              "declaring scope', 'terminal outputs = declared keys + data with the last value written', 'options are cut to declared outputs' and 'private keys stay local' are checked, "
              "value equalities by z3 validity queries",
         assumptions=ASSUME + ["each name is declared (as an input) in at most one enclosing scope; JavaScript beyond the modelled fragment is outside the claim",
